@@ -1,10 +1,11 @@
 (* extraction of the C01 executable models (Pattern.v, TokenSeq.v, C01Len.v + the generated rule table); ExtrOcamlBasic only *)
 Require Extraction.
 Require Import ExtrOcamlBasic.
-Require Import Base Overlap TokenSeq Pattern C01Len Tables_rulebodies C01EndToEnd.
+Require Import Base Overlap TokenSeq Pattern C01Len Tables_rulebodies C01EndToEnd C01Bodies Tables_bodyshapes.
 Extraction Language OCaml.
 Extraction "../ocaml/gen/c01_model.ml"
   matches find_all_matches run_on_chunk pattern_lint
   iter_chunks iter_sentences iter_paragraphs hull long_sentences
   min_len max_len rule_len_possible rule_table rule_ok
-  e2e_spans e2e_lint.
+  e2e_spans e2e_lint
+  modal_of_body modal_of_pattern rule_lint proper_noun_body exact_phrase_of repeated_words_uses.
